@@ -81,6 +81,13 @@ def gen_cols(rng):
         bins = bins[::-1]
     elif m < 0.38 and len(bins) > 2:
         bins[0], bins[1] = bins[1], bins[0]      # non-monotonic
+    if rng.random() < 0.2:
+        # the same profile squeezed into slivers of width 2^-44 around 1.0 (still exactly
+        # representable, all ratios dyadic): cells far thinner than any tolerance one might
+        # be tempted to use are still divided between the bins in proportion to the overlap
+        sc = 2.0 ** -44
+        theta = [[1.0 + t * sc for t in col] for col in theta]
+        bins = [1.0 + b * sc for b in bins]
     return {"kind": "cols", "phi": phi, "theta": theta, "bins": bins}
 
 
